@@ -142,6 +142,8 @@ type thread struct {
 	state     int // 0 running, 1 parked, 2 done
 	granted   bool
 	gid       uint64
+	calls     int  // storage calls that reached the gate (only touched by the thread itself)
+	pass      bool // storage calls run ungated (late second Release: it must not make any)
 	// scripted randomness of the current Generate call
 	kind int
 	pat  []uint64
@@ -187,6 +189,10 @@ func (g *gate) enter() {
 	th := g.me()
 	if th == nil {
 		return
+	}
+	th.calls++
+	if th.pass {
+		return // the schedule step was already taken at the operation's own gate
 	}
 	g.mu.Lock()
 	th.state = 1
@@ -787,7 +793,7 @@ func (e *env) runThread(th *thread, barrier func()) {
 		g.mu.Unlock()
 	}()
 	own, ownKind := "", -1
-	var alloc *node.NodeIDAllocator
+	var alloc, released *node.NodeIDAllocator
 	var firstCtx context.Context
 	var firstCancel context.CancelFunc
 	if len(th.ops) > 0 && th.ops[0].code == 'g' && th.ops[0].kind == nodeKind {
@@ -845,6 +851,25 @@ func (e *env) runThread(th *thread, barrier func()) {
 		case 'o', 'w':
 			if own == "" || (ownKind == nodeKind && alloc == nil) {
 				g.enter() // an operation without a storage call still takes one schedule step
+				if o.code == 'o' && released != nil && !g.free {
+					// a further Release() of an allocator that already released its id (deferred
+					// shutdown clean-up after an explicit release): the real code decides whether this
+					// touches the store; it must not
+					before := released.GetNodeID()
+					calls := th.calls
+					th.pass = true
+					err := released.Release()
+					th.pass = false
+					switch {
+					case th.calls == calls && err == nil:
+						g.ev(fmt.Sprintf("nop.%d", th.tid))
+					case err != nil:
+						g.ev(fmt.Sprintf("err.%d", th.tid))
+					default:
+						g.ev(fmt.Sprintf("relo.%d.%d.%s", th.tid, nodeKind, before))
+					}
+					continue
+				}
 				g.ev(fmt.Sprintf("nop.%d", th.tid))
 				continue
 			}
@@ -857,12 +882,17 @@ func (e *env) runThread(th *thread, barrier func()) {
 			} else {
 				if ownKind == nodeKind {
 					err = alloc.Release()
+					if err == nil {
+						released = alloc // kept for late second releases
+					} else {
+						released = nil // a retry after a failed Release is not driven (close of closed stopCh)
+					}
 					alloc = nil // a restarted node gets a fresh allocator
 				} else {
 					err = e.release(th, ownKind, own, 0)
 				}
 				if err == nil {
-					g.ev(fmt.Sprintf("rel.%d.%d.%s", th.tid, ownKind, own))
+					g.ev(fmt.Sprintf("relo.%d.%d.%s", th.tid, ownKind, own))
 				}
 				own = "" // the caller does not retry a failed release (model: own := none)
 			}
